@@ -34,6 +34,7 @@ func init() {
 					c.Undecided(id, "open-sites", 0, "only %d DCPAgent.OpenStream call sites", n)
 				}
 			}},
+			{ID: "C08.R7", Text: "the checkpoint never falls back below F during the replay: the position writer accepts a move ⇔ new ≥ current, whatever the branch id of either (same rule as C04.R1)", Run: c04r1},
 			{ID: "C08.R5", Text: "catch-up filter: skip ⇔ need ∧ seq ≤ F; need' = need ∧ seq < F; SetCatchup stores F and arms the filter", Run: c08r5},
 		},
 	})
